@@ -559,6 +559,53 @@ def symbol_table_check(ctx, rule, key, oracle_map, enum_adt, enum_map):
     return dag
 
 
+def text_misuse(roots, card_parser_call):
+    """uses of the text atom / its tokens other than: has_token(text, k), token(text, k) (and the ASCII variants), and a
+    token as the argument of the card parser"""
+    bad = []
+    seen = set()
+    TOK = ("token", "ascii_token")
+    HAS = ("has_token", "has_ascii_token")
+
+    def unref(v):
+        while v[0] == "ref" and isinstance(v[1], tuple) and v[1] and v[1][0] == "val":
+            v = v[1][1]
+        return v
+
+    def is_text(v):
+        v = unref(v)
+        return v[0] == "atom" and v[1] == "text"
+
+    def is_token(v):
+        v = unref(v)
+        return v[0] == "call" and v[1] in TOK
+
+    def operands(x):
+        if x[0] == "call":
+            return list(x[2])
+        if x[0] == "bin":
+            return [x[2], x[3]]
+        if x[0] == "un":
+            return [x[2]]
+        if x[0] == "cast":
+            return [x[1]]
+        return []
+    for root in roots:
+        for x in walk(root):
+            if id(x) in seen:
+                continue
+            seen.add(id(x))
+            ops = operands(x)
+            if not ops:
+                continue
+            what = x[1] if x[0] in ("call", "bin", "un") else x[0]
+            if any(is_text(o_) for o_ in ops) and not (x[0] == "call" and x[1] in TOK + HAS):
+                bad.append("the text flows into %s" % what)
+            if any(is_token(o_) for o_ in ops) and not (x[0] == "call" and x[1] == card_parser_call):
+                bad.append("a token flows into %s" % what)
+    return sorted(set(bad))
+
+
 def fold_bitset_parser(ctx, key, sty):
     """BinaryCard::from_index unrolled over more tokens than there are cards and folded on texts of 0..NTOK tokens
     (cards, repeats, junk, every card of the deck): -> (Exec, NTOK, number of texts whose result is not the union)"""
@@ -748,6 +795,11 @@ def check_C12(ctx):
                         if x[0] == "call" and x[1] == "fn:" + kfi and id(x) not in tcalls:
                             tcalls[id(x)] = atom("$t%d" % len(tcalls), "u32")
                 from .rank import value_use
+                ctx.check_shadow(path, "try_from", "core::convert::TryFrom", key, None)
+                # the text is read only through its tokens (being there, and what they are), and a token only by
+                # handing it to the card parser
+                misuse = text_misuse([so_.ret] + [c for o in so_.obligations if not (o.cond[0] == "c" and o.cond[1]) for c in (o.cond,) + tuple(o.pc)], "fn:" + kfi)
+                rep.ob("C12.hand-parser.reads", short(path), not misuse, "TryFrom<&str> for %s reads the text other than token by token (%s): its answer depends on more than the tokens" % (short(path), "; ".join(misuse[:3])), pdb.where(key))
                 roots_ = [substitute(r_, lambda nd: tcalls.get(id(nd))) for r_ in [so_.ret] + [c for o in so_.obligations if not (o.cond[0] == "c" and o.cond[1]) for c in (o.cond,) + tuple(o.pc)]]
                 _c, why_ = value_use(roots_, set(), {a_[1] for a_ in tcalls.values()})
                 rep.ob("C12.hand-parser.payload", short(path), why_ is None, "TryFrom<&str> for %s looks at the parsed cards (%s): its result or a panic site depends on more than the tokens being there" % (short(path), why_), pdb.where(key))
@@ -783,6 +835,10 @@ def check_C12(ctx):
                     ok = some and [cval(x) for x in arr_of(r[2][0])] == [expected_card(x) for x in tk[:5]]
                 nb += 0 if ok else 1
             rep.ob("C12.hand-parser", "parse::five_from_index", nb == 0, "five_from_index is wrong on %d token layouts" % nb, pdb.where(key))
+            kfi_, _st = ctx.method("u32", "from_index", PC)
+            so_ = ctx.summ(key, [("v", atom("text", "str"))], opaque={kfi_})
+            misuse = text_misuse([so_.ret] + [c for o in so_.obligations if not (o.cond[0] == "c" and o.cond[1]) for c in (o.cond,) + tuple(o.pc)], "fn:" + kfi_)
+            rep.ob("C12.hand-parser.reads", "parse::five_from_index", not misuse, "five_from_index reads the text other than token by token (%s)" % "; ".join(misuse[:3]), pdb.where(key))
         ctx.guard("C12.hand-parser.free", free)
         rep.floor("C12.hand-parser", cnt + 1, 7)
         rep.sample({"rule": "C12.hand-parser", "token_layouts": len(cases), "example": cases[3]})
